@@ -158,6 +158,7 @@ func c18Gen(tier string, seed int64) []fw.Case {
 				"write-idle-expiry-then-reset-zero", "write-idle-expiry-then-reset-future", "write-past-deadline-then-reset", "write-active-expiry",
 				"both-idle-expiry-setdeadline", "read-deadline-moved-while-blocked", "read-future-deadline-not-reached", "write-idle-expiry-then-only-read-reset",
 				"read-idle-expiry-with-partial-message", "write-idle-expiry-empty-write",
+				"write-idle-expiry-then-Close", "read-idle-expiry-then-Close", "both-idle-expiry-then-Close", "past-deadline-then-Close",
 				"read-active-past-deadline", "write-active-past-deadline", "read-active-expiry-header-buffered",
 				"read-future-deadline-removed-idle", "write-future-deadline-removed-idle", "both-future-deadline-removed-idle", "read-future-deadline-removed-active",
 				"far-future-deadlines",
@@ -592,6 +593,9 @@ func c18Deadline(r *fw.R, d c18Desc) {
 	c18Branches.Store(c, obs)
 	defer c18Branches.Delete(c)
 	peer := newRawPeer(peerEnd, d.Role, wire.Params{}, d.Seed)
+	if strings.HasSuffix(d.DL, "-then-Close") {
+		peer.AutoClose = true
+	}
 	if d.DL != "write-active-expiry" && d.DL != "write-active-past-deadline" {
 		peer.Start()
 	}
@@ -796,6 +800,41 @@ func c18Deadline(r *fw.R, d c18Desc) {
 		if !roundTrip("partial-message") {
 			return
 		}
+	case "write-idle-expiry-then-Close", "read-idle-expiry-then-Close", "both-idle-expiry-then-Close", "past-deadline-then-Close":
+		// a deadline that passed while idle leaves the connection usable: closing the adapter afterwards - the usual
+		// "SetDeadline(now); Close()" way to shut down - is still a normal closure that the peer reads as io.EOF
+		switch d.DL {
+		case "write-idle-expiry-then-Close":
+			nc.SetWriteDeadline(time.Now().Add(5 * time.Millisecond))
+		case "read-idle-expiry-then-Close":
+			nc.SetReadDeadline(time.Now().Add(5 * time.Millisecond))
+		case "both-idle-expiry-then-Close":
+			nc.SetDeadline(time.Now().Add(5 * time.Millisecond))
+		default:
+			nc.SetDeadline(time.Now().Add(-time.Second))
+		}
+		for t0 := time.Now(); obs.writeIdle.Load() == 0 && obs.readIdle.Load() == 0 && time.Since(t0) < 5*time.Second; {
+			time.Sleep(time.Millisecond)
+		}
+		if obs.writeIdle.Load() == 0 && obs.readIdle.Load() == 0 {
+			inconclusive("the idle timer did not run within 5 s")
+			return
+		}
+		if d.DL == "both-idle-expiry-then-Close" || d.DL == "past-deadline-then-Close" {
+			for t0 := time.Now(); (obs.writeIdle.Load() == 0 || obs.readIdle.Load() == 0) && time.Since(t0) < 5*time.Second; {
+				time.Sleep(time.Millisecond)
+			}
+		}
+		r.Count("deadline_idle_branch_seen", 1)
+		cerr := nc.Close()
+		ok := peer.Wait(10*time.Second, func() bool { return peer.Conf.CloseSeen })
+		code := -1
+		peer.Locked(func() { code = peer.Conf.CloseCode })
+		if !ok || code != 1000 {
+			r.Violate("C18/close-after-idle-deadline-not-a-normal-closure", fmt.Sprintf("%s: Close returned %v; Close frame seen by the peer: %v (code %d), want 1000 - the peer's adapter would not read io.EOF", what, cerr, ok, code), "")
+			return
+		}
+		r.Count("closes_after_an_idle_deadline_expiry", 1)
 	case "write-idle-expiry-empty-write":
 		nc.SetWriteDeadline(time.Now().Add(10 * time.Millisecond))
 		for t0 := time.Now(); obs.writeIdle.Load() == 0 && time.Since(t0) < 5*time.Second; {
